@@ -65,7 +65,12 @@ class GenMonitor(Monitor):
                 COL.violation(name, f'{name}:item-not-decodable', None, repr(e))
                 return
             judge_pairs(sh, pairs, cap, name, complete)
-        return attach.Replace(common.recording(result, judge, name))
+        def limit():
+            try:
+                return sh.lattice(cap).n
+            except core.CaseTooLarge:
+                return None
+        return attach.Replace(common.recording(result, judge, name, limit))
 
     def raised(self, token, args, kwargs, exc):
         COL.count('judged_' + self.gname)
